@@ -218,6 +218,10 @@ def genOps3 : List (String × R String) := [
         let b ← Gen.script_to_p2wsh_spk Crypto.sha256 Gen.OP_CODES py
         let ab ← Gen.script_to_bytes Gen.OP_CODES a
         let bb ← Gen.script_to_bytes Gen.OP_CODES b
+        -- the hashes the address objects hold must be the ones the helpers commit to
+        let h1 ← Gen.address_script_to_hash160 Crypto.sha256 Gen.OP_CODES py
+        let h2 ← Gen.segwit_script_to_hash Crypto.sha256 Gen.OP_CODES py
+        if dat a != hex h1 || dat b != hex h2 then throw PyErr.other
         pure s!"{dat a} {dat b} {hex ab} {hex bb}"))),
   ("g:dig_v0", do
       let t ← tx; let i ← nat; let code ← toks; let amt ← int; let ht ← nat
